@@ -1,6 +1,7 @@
 package checks
 
 import (
+	"context"
 	"errors"
 	"fmt"
 	"regexp"
@@ -69,6 +70,9 @@ func checkNodeErrors(name, key string, err error, wantFailing []int, handlerErr 
 		if seen[id] == 0 && mayBeAbsent[id] {
 			continue
 		}
+		if seen[id] > 1 {
+			fail("C05/at-most-once", key, "%s: node %d delivered %d errors to one call: %q", name, id, seen[id], text)
+		}
 		if seen[id] != 1 {
 			fail("C07/named-once", key, "%s: failing node %d is named %d times in %q", name, id, seen[id], text)
 		}
@@ -78,6 +82,15 @@ func checkNodeErrors(name, key string, err error, wantFailing []int, handlerErr 
 func faultScenario(p faultParams) func() {
 	return func() {
 		o := world.Opts{N: p.n}
+		slowStream := strings.HasSuffix(p.fault, "-queued+slow-stream") // additionally a stream call with a blocked quorum function is pending on each failing node
+		queued := strings.HasSuffix(p.fault, "-queued") || slowStream // the request is still queued behind a busy sender when the fault strikes
+		nStream := 0
+		if slowStream {
+			nStream = len(p.failing)
+		}
+		if queued {
+			o.Window = 1
+		}
 		if p.fault == "down" {
 			o.Down = make([]bool, p.n)
 			for _, f := range p.failing {
@@ -89,7 +102,18 @@ func faultScenario(p faultParams) func() {
 			return
 		}
 		handlerFault := strings.HasPrefix(p.fault, "err-")
+		blockerTok := map[int]bool{}
 		w.Handle = func(h *world.HCtx) world.Reply {
+			if h.Tok <= nStream {
+				// the pending stream call: two replies, streamed at once
+				h.Release()
+				h.Send(0, 0)
+				h.Send(1, 0)
+				return world.Reply{}
+			}
+			if blockerTok[h.Tok] {
+				world.Block() // the earlier one-way messages
+			}
 			if contains(p.failing, h.Node) {
 				if handlerFault {
 					return world.Reply{Err: faultErr(p.fault, h.Node)}
@@ -103,6 +127,43 @@ func faultScenario(p faultParams) func() {
 		}
 		healthy := p.n - len(p.failing)
 		thr := healthy + p.extra
+		if slowStream {
+			// on each failing node a correctable stream call whose quorum function blocks at the first reply:
+			// the second reply fills its reply channel, so the node's receiver can be held up while it
+			// reports the broken stream to the pending calls
+			for _, f := range p.failing {
+				sc := w.NewCall("CorrectableStream")
+				sc.Cfg = w.SubConfig(f)
+				sc.Ctx = context.Background()
+				first := true
+				sc.Verdict = func(inv *world.QFInv) {
+					if first {
+						first = false
+						w.Wait("slow-qf")
+					}
+					inv.Level = len(sc.QF) + 1
+				}
+				w.Invoke(sc)
+				mc.Quiesce()
+			}
+		}
+		if queued {
+			// two earlier one-way messages per failing node: one occupies the (never releasing) handler,
+			// one fills the window; the sender of that node is then stuck writing a third
+			for _, f := range p.failing {
+				for i := 0; i < 5; i++ {
+					b := w.NewCall("Unicast")
+					b.Node, b.NoSendWaiting = f, true
+					b.Ctx = context.Background()
+					blockerTok[b.Tok] = true
+					w.Start(b)
+					mc.Quiesce()
+					if !b.Returned {
+						break // the sender is busy: this message (and the call's request) wait for the hand-off
+					}
+				}
+			}
+		}
 		c := w.NewCall(p.kind)
 		c.Verdict = func(inv *world.QFInv) {
 			inv.Level = len(inv.Keys)
@@ -111,9 +172,9 @@ func faultScenario(p faultParams) func() {
 		strike := func() {
 			for _, f := range p.failing {
 				switch p.fault {
-				case "crash":
+				case "crash", "crash-queued", "crash-queued+slow-stream":
 					w.FW.Crash(world.Addr(f))
-				case "reset":
+				case "reset", "reset-queued":
 					w.FW.Reset(world.Addr(f))
 				case "restart":
 					w.FW.Crash(world.Addr(f))
@@ -121,13 +182,28 @@ func faultScenario(p faultParams) func() {
 				}
 			}
 		}
-		active := p.fault == "crash" || p.fault == "reset" || p.fault == "restart"
+		active := p.fault == "crash" || p.fault == "reset" || p.fault == "restart" || queued
+		if queued {
+			// strike only once the call's request waits behind the busy sender
+			w.Start(c)
+			mc.Quiesce()
+			strike()
+		}
+		if slowStream {
+			// the back-off of the sender's retry passes while the stream call's quorum function still runs
+			mc.Quiesce()
+			mc.FireTimers(nil)
+			mc.Quiesce()
+			w.Open("slow-qf")
+		}
 		if active && p.pre {
 			strike()
 			mc.Quiesce()
 		}
-		w.Start(c)
-		if active && !p.pre {
+		if !queued {
+			w.Start(c)
+		}
+		if active && !p.pre && !queued {
 			mc.GoNamed("fault", strike)
 		}
 		mc.Quiesce()
@@ -145,11 +221,17 @@ func faultScenario(p faultParams) func() {
 		name, key := p.name(), classOf(p.kind)+"/"+p.fault
 		// a failing node that received the request on a stream created after the fault is legitimately outstanding
 		outstanding := map[int]bool{}
-		if active && p.fault != "crash" {
+		if active && !strings.HasPrefix(p.fault, "crash") {
 			for _, f := range p.failing {
 				for _, e := range w.EventsOf("enter", f) {
 					st := w.FW.Streams[e.Conn]
 					if e.Tok == c.Tok && !st.Broken() {
+						outstanding[f] = true
+					}
+				}
+				// ... or was written to such a stream and waits there behind an unreleased handler
+				for _, st := range w.FW.Streams {
+					if c2s, _ := st.Pending(); st.Addr == world.Addr(f) && !st.Broken() && c2s > 0 {
 						outstanding[f] = true
 					}
 				}
@@ -235,7 +317,7 @@ func routerCounts(w *world.W) string {
 
 func faultInstances(tier string) []Instance {
 	var out []Instance
-	faults := []string{"down", "crash", "reset", "restart", "err-Unknown", "err-NotFound", "err-Internal", "err-Unavailable", "err-Canceled"}
+	faults := []string{"down", "crash", "reset", "restart", "crash-queued", "reset-queued", "crash-queued+slow-stream", "err-Unknown", "err-NotFound", "err-Internal", "err-Unavailable", "err-Canceled"}
 	kinds := []string{"QuorumCall", "QuorumCallAsync"}
 	if thorough(tier) {
 		kinds = append(kinds, "Correctable", "QuorumCallCombo")
@@ -255,6 +337,9 @@ func faultInstances(tier string) []Instance {
 					for _, late := range []bool{false, true} {
 						for _, pre := range []bool{false, true} {
 							active := f == "crash" || f == "reset" || f == "restart"
+							if strings.Contains(f, "-queued") && (pre || len(s.failing) == s.n) {
+								continue
+							}
 							if !active && pre {
 								continue
 							}
@@ -284,7 +369,7 @@ func faultInstances(tier string) []Instance {
 
 func init() {
 	register(&Check{ID: "C07",
-		Rule: "fault enumeration: n in {2,3} x failing subset (minority, majority, all) x failure kind {down at creation, crash, stream reset, crash+restart, handler error with code Unknown/NotFound/Internal/Unavailable/Canceled} x threshold {healthy, healthy+1} x healthy nodes answering before / after the fault x fault position {before the call, free-running fault thread placed by the explorer at every instant within the deviation bound} x {quorum call, async (+correctable, combo in thorough)}; armed back-off timers are fired to a horizon of 4 rounds before the progress oracle; oracle: success iff the healthy replies satisfy the quorum function, Incomplete names every failing node exactly once with the handler's status or an unavailable-type error, the quorum function never sees a failed node, no call is left waiting for a node whose connection broke (unless that node received the request on a stream created after the fault); an outcome is (instance, result class)",
+		Rule: "fault enumeration: n in {2,3} x failing subset (minority, majority, all) x failure kind {down at creation, crash, stream reset, crash+restart, crash / reset while the request is still queued behind a sender blocked on a full window (also with a stream call whose quorum function is blocked pending on the failing node), handler error with code Unknown/NotFound/Internal/Unavailable/Canceled} x threshold {healthy, healthy+1} x healthy nodes answering before / after the fault x fault position {before the call, free-running fault thread placed by the explorer at every instant within the deviation bound} x {quorum call, async (+correctable, combo in thorough)}; armed back-off timers are fired to a horizon of 4 rounds before the progress oracle; oracle: success iff the healthy replies satisfy the quorum function, Incomplete names every failing node exactly once with the handler's status or an unavailable-type error, the quorum function never sees a failed node, no call is left waiting for a node whose connection broke (unless that node received the request on a stream created after the fault); an outcome is (instance, result class)",
 		Gen:  faultInstances,
 		Assumptions: []string{"a node with a connection fault never answers (its handler blocks), so it can only contribute an error", "crashes drop in-flight frames (fakegrpc); eventual completion is decided after firing the armed library timers 4 rounds"},
 	})
